@@ -74,8 +74,9 @@ func CharCount(str string) int {
 // CreateAbsoluteURL convert url to absolute path based on base.
 // However, if url is prefixed with hash (#), the url won't be changed.
 func CreateAbsoluteURL(url string, base *nurl.URL) string {
-	// White space around the value of a URL attribute is not part of the URL.
-	url = strings.TrimSpace(url)
+	// ASCII white space around the value of a URL attribute is not part of the URL. (Only
+	// that: a value that starts with, say, a no-break space is a relative reference.)
+	url = strings.Trim(url, " \t\n\f\r")
 	if url == "" || base == nil {
 		return url
 	}
